@@ -87,7 +87,7 @@ C01_ExportExact ==
    Every entry is an eligible route, no route and no identifier twice, and the quota is used:
    min(send-max, number of eligible routes) entries. *)
 Strip(o) == [v |-> o.v, src |-> o.src, aspath |-> o.aspath, nh |-> o.nh, med |-> o.med, lp |-> o.lp,
-             origid |-> o.origid, clist |-> o.clist]
+             origid |-> o.origid, clist |-> o.clist, cm |-> o.cm]
 MinOf(a, b) == IF a < b THEN a ELSE b
 C01_AddPathExact ==
   hasObs => \A p \in Peers : (Current(p) /\ CleanIn /\ CleanOut(p) /\ SendMax(p) > 0) =>
